@@ -64,7 +64,7 @@ func recvFieldName(info *types.Info, call *ast.CallExpr) string {
 
 func methodName(call *ast.CallExpr) string {
 	if se, ok := ast.Unparen(call.Fun).(*ast.SelectorExpr); ok {
-		return se.Sel.Name
+		return refName(se.Sel.Name)
 	}
 	return ""
 }
